@@ -86,3 +86,179 @@ package logger
 //@   ghost after call Handle set errs = errs + 1
 //@   ghost after call Handle set errPanic = err
 //@   ghost after call Handle set errTid = bytesText(store.id)
+
+// ================= C01: JSON position automaton (fold ghost over append-only byte buffers) =================
+// State = (k, d): k is the lexical position, d the number of open objects.
+//   0 ERR   1 S0   2 K0 (after '{')   3 KC (after ',')   4 IK (in key)   5 IK\   6-9 IK\u (4..1 hex digits left)
+//   10 AK (after key)   11 V (after ':')   12 IS (in string value)   13 IS\   14-17 IS\u   18 AM (after a member)
+//   19 N (in a number / literal token)   20 END (after the final '}')   21 ENDNL (after the newline)
+//@ pure isHexB(c int) bool = (c >= '0' && c <= '9') || (c >= 'a' && c <= 'f') || (c >= 'A' && c <= 'F')
+//@ pure isEsc1(c int) bool = c == '"' || c == 92 || c == '/' || c == 'b' || c == 'f' || c == 'n' || c == 'r' || c == 't'
+//@ pure isNumB(c int) bool = (c >= '0' && c <= '9') || c == '-' || c == '+' || c == '.' || c == 'e' || c == 'E' || (c >= 'a' && c <= 'z')
+//@ pure closeK(d int) int = ite(d > 1, 18, 20)
+//@ pure strStep(base int, k int, c int) int = ite(k == base, ite(c == '"', ite(base == 4, 10, 18), ite(c == 92, base + 1, ite(c < 32, 0, base))), ite(k == base + 1, ite(isEsc1(c), base, ite(c == 'u', base + 2, 0)), ite(isHexB(c), ite(k == base + 5, base, k + 1), 0)))
+//@ pure jsonK(k int, d int, c int) int = ite(k == 1, ite(c == '{', 2, 0), ite(k == 2, ite(c == '"', 4, ite(c == '}', closeK(d), 0)), ite(k == 3, ite(c == '"', 4, 0), ite(k >= 4 && k <= 9, strStep(4, k, c), ite(k == 10, ite(c == ':', 11, 0), ite(k == 11, ite(c == '"', 12, ite(c == '{', 2, ite((c >= '0' && c <= '9') || c == '-' || c == 't' || c == 'f' || c == 'n', 19, 0))), ite(k >= 12 && k <= 17, strStep(12, k, c), ite(k == 18, ite(c == ',', 3, ite(c == '}', closeK(d), 0)), ite(k == 19, ite(c == ',', 3, ite(c == '}', closeK(d), ite(isNumB(c), 19, 0))), ite(k == 20, ite(c == 10, 21, 0), 0))))))))))
+//@ pure jsonD(k int, d int, c int) int = ite(k == 1 && c == '{', 1, ite(k == 11 && c == '{', d + 1, ite((k == 2 || k == 18 || k == 19) && c == '}', d - 1, d)))
+// jst: the line buffer, read from the start of the line. jfrag: a pre-rendered fragment (preformatted), read from the
+// position where Handle splices it, i.e. after the "msg" member: AM at depth 1.
+//@ fold jst 1 0 jsonK jsonD
+//@ fold jfrag 18 1 jsonK jsonD
+//@ foldalias jfrag jst
+//@ foldlink jfrag jst
+//@ pure inStr(k int) bool = k == 4 || k == 12
+//@ pure inStrQ(k int, d int) bool = k == 4 || k == 12
+//@ pure pOK(c int) bool = c >= 32 && c != '"' && c != 92
+//@ runlemma jst strStable inStrQ pOK
+//@ runlemma jfrag strStableFrag inStrQ pOK
+// table obligations, proved once on the real initialisers (lemmas are assumed by the other functions of the package)
+//@ const-global safeSet
+//@ lemma safeSet.table: forall b int {safeSet[b]} :: 0 <= b && b < 128 && safeSet[b] ==> pOK(b)
+//@ lemma hex.table: forall i int {hex[i]} :: 0 <= i && i < 16 ==> isHexB(hex[i])
+
+//@ pure sameOrFresh(d []byte, r []byte) bool = (arr(r) == arr(d) && off(r) == off(d) && cap(r) == cap(d)) || fresh(arr(r))
+
+//@ func appendJsonString
+//@   attr foldpoly yes
+//@   requires buf != nil
+//@   attr lemmas yes
+//@   modifies *buf, spare(*buf)
+//@   ensures grow: len(*buf) >= len(old(*buf)) && sameOrFresh(old(*buf), *buf)
+//@   ensures str: inStr(old(jstK(*buf))) ==> jstK(*buf) == old(jstK(*buf)) && jstD(*buf) == old(jstD(*buf))
+//@   loop 1
+//@     invariant 0 <= start && start <= i && i <= len(str)
+//@     invariant len(*buf) >= len(old(*buf)) && sameOrFresh(old(*buf), *buf)
+//@     invariant forall k int {str[k]} :: start <= k && k < i ==> pOK(str[k])
+//@     invariant inStr(old(jstK(*buf))) ==> jstK(*buf) == old(jstK(*buf)) && jstD(*buf) == old(jstD(*buf))
+//@     decreases len(str) - i
+
+//@ pure afterVal(k int) bool = k == 18 || k == 19
+// assumed about encoding/json: the text it produces for a value is one JSON value
+//@ axiom encoderValue: forall d int, x []byte {jst_runK_sl(11, d, x)} :: jsonVal(x) ==> jst_runK_sl(11, d, x) == 18 && jst_runD_sl(11, d, x) == d
+//@ axiom encoderValueFrag: forall d int, x []byte {jfrag_runK_sl(11, d, x)} :: jsonVal(x) ==> jfrag_runK_sl(11, d, x) == 18 && jfrag_runD_sl(11, d, x) == d
+
+//@ func appendJsonMarshal
+//@   attr foldpoly yes
+//@   requires buf != nil
+//@   modifies *buf, spare(*buf), ghostfields(jsonLine)
+//@   ensures grow: len(*buf) >= len(old(*buf)) && sameOrFresh(old(*buf), *buf)
+//@   ensures val: old(jstK(*buf)) == 11 ==> afterVal(jstK(*buf)) && jstD(*buf) == old(jstD(*buf))
+
+//@ func appendJsonValue
+//@   attr foldpoly yes
+//@   requires buf != nil && v.Kind() != 8 && v.Kind() != 9
+//@   modifies *buf, spare(*buf), ghostfields(jsonLine)
+//@   ensures grow: len(*buf) >= len(old(*buf)) && sameOrFresh(old(*buf), *buf)
+//@   ensures val: !colorful && old(jstK(*buf)) == 11 ==> afterVal(jstK(*buf)) && jstD(*buf) == old(jstD(*buf))
+
+//@ func appendJsonSource
+//@   attr foldpoly yes
+//@   requires buf != nil
+//@   modifies *buf, spare(*buf)
+//@   ensures grow: len(*buf) >= len(old(*buf)) && sameOrFresh(old(*buf), *buf)
+//@   ensures members: old(jstK(*buf)) == 2 ==> afterVal(jstK(*buf)) && jstD(*buf) == old(jstD(*buf))
+//@   loop 1
+//@     invariant -1 <= idx && idx < len(f.File) && *buf == old(*buf)
+//@     decreases idx + 1
+
+// level labels: the five valid levels, non-colourful labels are plain upper-case text
+//@ const-global labelList
+//@ pure validLevel(l int) bool = (l == 0 || l == 4 || l == 8 || l == 12 || l == 16)
+//@ lemma label.2: forall i int {labelList[2][i]} :: 0 <= i && i < len(labelList[2]) ==> pOK(labelList[2][i])
+//@ lemma label.6: forall i int {labelList[6][i]} :: 0 <= i && i < len(labelList[6]) ==> pOK(labelList[6][i])
+//@ lemma label.10: forall i int {labelList[10][i]} :: 0 <= i && i < len(labelList[10]) ==> pOK(labelList[10][i])
+//@ lemma label.14: forall i int {labelList[14][i]} :: 0 <= i && i < len(labelList[14]) ==> pOK(labelList[14][i])
+//@ lemma label.18: forall i int {labelList[18][i]} :: 0 <= i && i < len(labelList[18]) ==> pOK(labelList[18][i])
+
+//@ func appendFullLevel
+//@   attr foldpoly yes
+//@   requires buf != nil && validLevel(l)
+//@   modifies *buf, spare(*buf)
+//@   ensures grow: len(*buf) >= len(old(*buf)) && sameOrFresh(old(*buf), *buf)
+//@   ensures str: !colorful && inStr(old(jstK(*buf))) ==> jstK(*buf) == old(jstK(*buf)) && jstD(*buf) == old(jstD(*buf))
+
+// one attribute = one member (or, for an inline group, its members; nothing for an empty inline group)
+//@ pure memberPre(k int, addSep bool) bool = (addSep && afterVal(k)) || (!addSep && (k == 2 || k == 3))
+//@ func appendJsonAttr
+//@   attr foldpoly yes
+//@   requires buf != nil
+//@   modifies *buf, spare(*buf), ghostfields(jsonLine)
+//@   ensures grow: len(*buf) >= len(old(*buf)) && sameOrFresh(old(*buf), *buf)
+//@   ensures quiet: !wrote ==> *buf == old(*buf)
+//@   ensures member: !colorful && memberPre(old(jstK(*buf)), addSep) && old(jstD(*buf)) >= 1 && wrote ==> afterVal(jstK(*buf)) && jstD(*buf) == old(jstD(*buf))
+//@   loop 1
+//@     invariant -1 <= rangeindex && rangeindex < 72057594037927936 && len(*buf) >= len(old(*buf)) && sameOrFresh(old(*buf), *buf)
+//@     invariant !wrote ==> *buf == old(*buf) && addSep == old(addSep)
+//@     invariant !colorful && memberPre(old(jstK(*buf)), old(addSep)) && old(jstD(*buf)) >= 1 && wrote ==> addSep && afterVal(jstK(*buf)) && jstD(*buf) == old(jstD(*buf))
+//@   loop 2
+//@     invariant -1 <= rangeindex && rangeindex < 72057594037927936 && len(*buf) >= len(old(*buf)) && sameOrFresh(old(*buf), *buf)
+//@     invariant !colorful && memberPre(old(jstK(*buf)), old(addSep)) && old(jstD(*buf)) >= 1 ==> memberPre(jstK(*buf), addSep) && jstK(*buf) != 3 && jstD(*buf) == old(jstD(*buf)) + 1
+
+// ================= buffers (C02/C03): pooled line buffers =================
+//@ poolinv bufferPool buf *[]byte :: len(*buf) == 0
+//@ func newBuffer
+//@   modifies ghostfields(owned)
+//@   ensures result != nil && len(*result) == 0 && owned(result) && owned(*result) && !isStructField(result) && pooled(result) && (arr(*result) == nil || pooled(*result))
+
+//@ func freeBuffer
+//@   requires buf != nil && owned(buf)
+//@   modifies *buf, ghostfields(owned)
+
+// ================= JsonHandler (C01 structure, C02, C03) =================
+// handler invariant: the pre-rendered fragment, read where Handle splices it, leaves the automaton expecting a member
+// (after a value if a separator is due, right after '{' otherwise) at depth 1 + nOpenGroups
+//@ pure jsonHI(h *JsonHandler) bool = h != nil && h.Options != nil && h.outMu != nil && h.out != nil && h.nOpenGroups >= 0 && h.nOpenGroups <= len(h.preformatted)
+//@   | && (arr(h.preformatted) == nil || !pooled(h.preformatted)) && (h.addSep ==> afterVal(jfragK(h.preformatted))) && (!h.addSep ==> jfragK(h.preformatted) == 2) && jfragD(h.preformatted) == 1 + h.nOpenGroups
+
+//@ func NewJsonHandler
+//@   requires w != nil && opts != nil
+//@   modifies nothing
+//@   ensures jsonHI(result) && fresh(result) && fresh(result.outMu) && result.out == w && result.Options == opts && !result.outMu.held
+
+//@ func (*JsonHandler).clone
+//@   requires jsonHI(h)
+//@   modifies nothing
+//@   ensures shared: result != nil && fresh(result) && result.Options == h.Options && result.outMu == h.outMu && result.out == h.out && result.nOpenGroups == h.nOpenGroups && result.addSep == h.addSep
+//@   ensures clipped: arr(result.preformatted) == arr(h.preformatted) && off(result.preformatted) == off(h.preformatted) && len(result.preformatted) == len(h.preformatted) && cap(result.preformatted) == len(result.preformatted)
+//@   ensures jsonHI(result)
+
+//@ func (*JsonHandler).WithAttrs
+//@   requires jsonHI(h)
+//@   modifies ghostfields(jsonLine)
+//@   ensures same: len(attrs) == 0 ==> result == any(h)
+//@   ensures derived: len(attrs) > 0 && !h.Options.colorful ==> typeIs(result, *JsonHandler) && jsonHI(payload(result, *JsonHandler)) && fresh(payload(result, *JsonHandler)) && payload(result, *JsonHandler).outMu == h.outMu && payload(result, *JsonHandler).out == h.out && payload(result, *JsonHandler).Options == h.Options
+//@   loop 1
+//@     invariant len(attrs) > 0 && -1 <= rangeindex && rangeindex < 72057594037927936 && h2 != nil && fresh(h2) && h2.Options == h.Options && h2.outMu == h.outMu && h2.out == h.out
+//@     invariant !h.Options.colorful ==> jsonHI(h2)
+//@     invariant fresh(arr(h2.preformatted)) || cap(h2.preformatted) == len(h2.preformatted)
+
+//@ func (*JsonHandler).WithGroup
+//@   requires jsonHI(h)
+//@   modifies nothing
+//@   ensures derived: typeIs(result, *JsonHandler) && jsonHI(payload(result, *JsonHandler)) && fresh(payload(result, *JsonHandler)) && payload(result, *JsonHandler).outMu == h.outMu && payload(result, *JsonHandler).out == h.out && payload(result, *JsonHandler).Options == h.Options && payload(result, *JsonHandler).nOpenGroups == h.nOpenGroups + 1
+
+// Handle: one line = one JSON object + '\n', written by exactly one Write under the shared mutex (C01/C02)
+//@ func (*JsonHandler).Handle
+//@   requires jsonHI(h) && !h.outMu.held && validLevel(r.Level)
+//@   modifies ghostfields(jsonLine), ghostfields(owned), h.outMu.held, wN, wErr, wCalls
+//@   attr blocking-ops call(Lock)#1,call(Write)#1
+//@   ensures oneWrite: wCalls == old(wCalls) + 1
+//@   ensures unlocked: !h.outMu.held
+//@   ghost before call Write assert locked: h.outMu.held
+//@   ghost before call Write assert whole: arg1 == *buf
+//@   ghost before call Write assert line: !h.Options.colorful ==> jstK(*buf) == 21 && jstD(*buf) == 0
+//@   loop 1
+//@     invariant a: 0 <= i && i <= h.nOpenGroups && buf != nil
+//@     invariant b: owned(buf) && !isStructField(buf)
+//@     invariant c: (owned(*buf) || fresh(arr(*buf)))
+//@     invariant d: !h.outMu.held && wCalls == old(wCalls)
+//@     invariant e: jsonHI(h)
+//@     invariant !h.Options.colorful ==> (jstK(*buf) == 2 || afterVal(jstK(*buf))) && jstD(*buf) == 1 + h.nOpenGroups - i
+//@     decreases h.nOpenGroups - i
+
+// the closure handed to Record.Attrs: preserves "expecting a member at depth 1 + nOpenGroups"
+//@ func (*JsonHandler).Handle$1
+//@   requires buf != nil && h != nil && h.Options != nil
+//@   modifies *buf, spare(*buf), ghostfields(jsonLine), addSep
+//@   ensures trans.grow: len(*buf) >= len(old(*buf)) && sameOrFresh(old(*buf), *buf)
+//@   invariant member: !h.Options.colorful ==> (addSep ==> afterVal(jstK(*buf))) && (!addSep ==> jstK(*buf) == 2) && jstD(*buf) == 1 + h.nOpenGroups && h.nOpenGroups >= 0
+//@   ensures result
